@@ -215,7 +215,8 @@ def run(chk):
     if aw:
         hs = [h for _t, h in K.enclosing_try_handlers(aw[0])]
         canc = [h for h in hs if "asyncio.CancelledError" in PC.handler_types(h)]
-        if canc and M.contains(canc[0], "conn.close()") and isinstance(canc[0].body[-1], ast.Raise):
+        uncond = canc and [c for c, _b in M.find(canc[0], "conn.close()") if not [l for l in PC.units(PC.pc(c, stop=canc[0])) if not l.text.startswith("EXCEPT(")] and all(len(cl) == 1 for cl in PC.pc(c, stop=canc[0]))]
+        if canc and uncond and isinstance(canc[0].body[-1], ast.Raise):
             chk.ok("C06.closeonerror", canc[0], "a cancelled body write closes the connection")
         else:
             chk.violation("C06.closeonerror", aw[0], K.short(aw[0]), "except asyncio.CancelledError: conn.close(); raise", "a request whose body was only partly sent leaves its connection reusable")
